@@ -924,8 +924,9 @@ evaluate() const {
       return Result();
 
     default:
-      cerr << "**unexpected operator**\n";
-      abort();
+      // An operator we don't know how to evaluate: as far as we are concerned
+      // this is not a constant expression.
+      return Result();
     }
 
   case T_literal:
@@ -1294,8 +1295,8 @@ determine_type() const {
       return t2;
 
     default:
-      cerr << "**unexpected operator**\n";
-      abort();
+      // An operator whose result type we don't know.
+      return nullptr;
     }
 
   case T_literal:
